@@ -34,6 +34,7 @@ Print Assumptions C06_nothing_accepted_after_the_call.
 Theorem C06_structure :
   shutdown_flags_first_with_kill_argument = true /\ kill_workers_pops_and_kills_each = true
   /\ kill_tree_psutil_joins_otherwise = true /\ kill_tree_nopsutil_always_joins = true
+  /\ kill_tree_nopsutil_lists_children_by_parent_pid_depth_first = true
   /\ flag_executor_shutting_down_ops = [FlagShutdown; IfKillWorkers [FailPendingShut; KillWorkers]].
 Proof. repeat split; reflexivity. Qed.
 Print Assumptions C06_structure.
